@@ -2095,10 +2095,13 @@ func c08r21(rc *core.RC) {
 
 // ---- C08.R22 a re-slice beyond the length is guarded by the capacity that is left ----
 
-// AppendByteSlice encodes base64 text in place: buf = b[pos : pos+n] reaches beyond len(b) into the spare capacity.
-// That is in range only when cap(b) - pos >= n: the guard has to compare n with the capacity that is left behind
-// pos (cap(b[pos:]), cap(b)-pos), not with the capacity of the whole buffer: a member that straddles the end of the
-// pooled output buffer otherwise panics with slice bounds out of range.
+// AppendByteSlice encodes base64 text in place: it re-slices the output buffer beyond its length into the spare
+// capacity. x[lo:hi] with hi > len(x) is in range only when hi <= cap(x). The rule evaluates hi, the conditions on
+// the way to the re-slice, and a preceding "grow if too small" statement as linear forms over len, cap and the
+// locals (all of them lengths and positions, hence not negative) and requires that cap(x) - hi >= 0 follows from
+// one of them. A guard on the capacity of the whole buffer says nothing about the room behind what is written
+// (a member that straddles the end of the pooled buffer panics); room for the text is not room for the text and
+// its closing quote (a text that ends exactly at the capacity panics).
 func c08r22(rc *core.RC) {
 	p := rc.P
 	n := 0
@@ -2108,91 +2111,169 @@ func c08r22(rc *core.RC) {
 		}
 		info := p.Info(fd)
 		fn := p.FuncName(fd)
+		// only functions that reason about a capacity
+		mentionsCap := false
+		ast.Inspect(fd.Body, func(m ast.Node) bool {
+			if c, ok := m.(*ast.CallExpr); ok && core.IsBuiltin(info, c, "cap") {
+				if t := info.TypeOf(c.Args[0]); t != nil && t.String() == "[]byte" {
+					mentionsCap = true
+				}
+			}
+			return true
+		})
+		if !mentionsCap {
+			continue
+		}
+		le := &core.LinearEval{Info: info, Pkg: p.Pkg("encoder"), Body: fd.Body}
+		// a >= 0 fact from a comparison
+		factOf := func(cond ast.Expr, pos bool) (core.Linear, bool) {
+			be, ok := core.Unparen(cond).(*ast.BinaryExpr)
+			if !ok {
+				return core.Linear{}, false
+			}
+			l, r := le.Eval(be.X), le.Eval(be.Y)
+			if !l.OK || !r.OK {
+				return core.Linear{}, false
+			}
+			op := be.Op
+			if !pos {
+				switch op {
+				case token.GTR:
+					op = token.LEQ
+				case token.GEQ:
+					op = token.LSS
+				case token.LSS:
+					op = token.GEQ
+				case token.LEQ:
+					op = token.GTR
+				default:
+					return core.Linear{}, false
+				}
+			}
+			switch op {
+			case token.GTR:
+				return l.Sub(r).Sub(core.LinConst(1)), true
+			case token.GEQ:
+				return l.Sub(r), true
+			case token.LSS:
+				return r.Sub(l).Sub(core.LinConst(1)), true
+			case token.LEQ:
+				return r.Sub(l), true
+			}
+			return core.Linear{}, false
+		}
+		nonneg := func(l core.Linear) bool {
+			if !l.OK || l.Const < 0 {
+				return false
+			}
+			for _, c := range l.Terms {
+				if c < 0 {
+					return false
+				}
+			}
+			return true
+		}
 		k := 0
 		ast.Inspect(fd.Body, func(m ast.Node) bool {
 			se, ok := m.(*ast.SliceExpr)
-			if !ok || se.Low == nil || se.High == nil {
+			if !ok || se.High == nil {
 				return true
 			}
 			if t := info.TypeOf(se.X); t == nil || t.String() != "[]byte" {
 				return true
 			}
-			// x[lo : lo+n]
-			hi, isSum := core.Unparen(se.High).(*ast.BinaryExpr)
-			if !isSum || hi.Op != token.ADD {
+			xid, isID := core.Unparen(se.X).(*ast.Ident)
+			if !isID {
 				return true
 			}
-			lo := core.ObjOf(info, se.Low)
-			if lo == nil || core.ObjOf(info, hi.X) != lo {
+			hi := le.Eval(se.High)
+			if !hi.OK {
 				return true
 			}
-			// lo is the length of x at some point (lo := len(x)): the slice reaches into the spare capacity
-			def := singleDef(info, fd.Body, lo)
-			if c, isCall := core.Unparen(def).(*ast.CallExpr); def == nil || !isCall || !core.IsBuiltin(info, c, "len") {
+			capAtom := "cap(" + xid.Name + ")"
+			lenAtom := "len(" + xid.Name + ")"
+			// within the length for certain: hi = len(x) - c, or a constant
+			within := true
+			for a, c := range hi.Terms {
+				if c != 0 && !(a == lenAtom && c == 1) {
+					within = false
+				}
+			}
+			if within && (hi.Terms[lenAtom] == 0 || hi.Const <= 0) {
 				return true
 			}
+			// only re-slices whose bound involves what the function measures against the capacity
 			k++
 			n++
 			rc.Touch(fn)
 			key := fmt.Sprintf("%s/extension#%d guarded-by-the-capacity-left", fn, k)
-			xobj := core.ObjOf(info, se.X)
-			nobj := core.ObjOf(info, hi.Y)
-			// capacity-left expressions: cap(x[lo:]), cap(x)-lo, or a variable defined as one of them
-			var isCapLeft func(e ast.Expr, d int) bool
-			isCapLeft = func(e ast.Expr, d int) bool {
-				e = core.Unparen(e)
-				switch v := e.(type) {
-				case *ast.CallExpr:
-					if core.IsBuiltin(info, v, "cap") && len(v.Args) == 1 {
-						if s2, isSl := core.Unparen(v.Args[0]).(*ast.SliceExpr); isSl && core.ObjOf(info, s2.X) == xobj && s2.Low != nil && core.ObjOf(info, s2.Low) == lo && s2.High == nil {
-							return true
-						}
+			need := core.Linear{OK: true, Terms: map[string]int64{capAtom: 1}}.Sub(hi)
+			var facts []core.Linear
+			var seen []string
+			for _, c := range condChainNodes(fd, se) {
+				for _, cj := range conjuncts(c.cond) {
+					if !c.pos {
+						cj = c.cond
 					}
-				case *ast.BinaryExpr:
-					if v.Op == token.SUB && core.ObjOf(info, v.Y) == lo {
-						if c, isCall := core.Unparen(v.X).(*ast.CallExpr); isCall && core.IsBuiltin(info, c, "cap") && len(c.Args) == 1 && core.ObjOf(info, c.Args[0]) == xobj {
-							return true
-						}
+					if f, ok := factOf(cj, c.pos); ok {
+						facts = append(facts, f)
+						seen = append(seen, core.Src(p.Fset, cj))
 					}
-				case *ast.Ident:
-					if d < 2 {
-						if dd := singleDef(info, fd.Body, core.ObjOf(info, v)); dd != nil {
-							return isCapLeft(dd, d+1)
-						}
+					if !c.pos {
+						break
 					}
 				}
-				return false
 			}
-			guarded := false
-			seen := ""
-			for _, c := range condChainNodes(fd, se) {
-				if !c.pos {
+			// grow-if-too-small in front of the re-slice: `if G > cap(x) { x = make(T, L, C) }` leaves cap(x) >= G when C >= G
+			path := core.PathTo(fd.Body, se)
+			for i := len(path) - 1; i >= 1; i-- {
+				blk, isBlk := path[i-1].(*ast.BlockStmt)
+				if !isBlk {
 					continue
 				}
-				for _, cj := range conjuncts(c.cond) {
-					be, isBin := core.Unparen(cj).(*ast.BinaryExpr)
-					if !isBin {
+				for _, st := range blk.List {
+					if ast.Node(st) == path[i] {
+						break
+					}
+					ifs, isIf := st.(*ast.IfStmt)
+					if !isIf || ifs.Else != nil {
 						continue
 					}
-					seen = core.Src(p.Fset, cj)
-					switch be.Op {
-					case token.GTR, token.GEQ:
-						if isCapLeft(be.X, 0) && core.ObjOf(info, be.Y) == nobj && nobj != nil {
-							guarded = true
+					f, ok := factOf(ifs.Cond, false) // what holds when the branch is not taken
+					if !ok || f.Terms[capAtom] != 1 {
+						continue
+					}
+					// in the branch x is replaced by a buffer of capacity C
+					var capExpr ast.Expr
+					ast.Inspect(ifs.Body, func(q ast.Node) bool {
+						if c, isCall := q.(*ast.CallExpr); isCall && core.IsBuiltin(info, c, "make") && len(c.Args) == 3 {
+							capExpr = c.Args[2]
 						}
-					case token.LSS, token.LEQ:
-						if isCapLeft(be.Y, 0) && core.ObjOf(info, be.X) == nobj && nobj != nil {
-							guarded = true
-						}
+						return true
+					})
+					if capExpr == nil {
+						continue
+					}
+					// G = cap(x) - f; taken branch: cap becomes C, so the same fact holds when C - G >= 0
+					g := core.Linear{OK: true, Terms: map[string]int64{capAtom: 1}}.Sub(f)
+					if nonneg(le.Eval(capExpr).Sub(g)) {
+						facts = append(facts, f)
+						seen = append(seen, "grow unless "+core.Src(p.Fset, ifs.Cond))
 					}
 				}
 			}
-			rc.Check(guarded, key, se.Pos(), "the re-slice %s, which reaches beyond len(%s), stands under a test that compares %s with the capacity left behind %s (cap(x[lo:]) or cap(x)-lo); the condition found is `%s`: the capacity of the whole buffer says nothing about the room behind what is already written", core.Src(p.Fset, se), xobj.Name(), core.Src(p.Fset, hi.Y), lo.Name(), seen)
+			proved := false
+			for _, f := range facts {
+				if nonneg(need.Sub(f)) {
+					proved = true
+				}
+			}
+			rc.Check(proved, key, se.Pos(), "the re-slice %s reaches beyond len(%s): cap(%s) - (%s) >= 0 follows from a condition on the way or from a grow-if-too-small statement in front of it (found: %s)", core.Src(p.Fset, se), xid.Name, xid.Name, hi, strings.Join(seen, "; "))
 			return true
 		})
 	}
 	if n < 1 {
-		rc.Unknown("encoder/extensions", token.NoPos, "no re-slice of the form x[len : len+n] found in the encoder (confirmed: AppendByteSlice)")
+		rc.Unknown("encoder/extensions", token.NoPos, "no re-slice beyond the length found in the functions of the encoder that measure a capacity (confirmed: AppendByteSlice)")
 	}
 }
 
